@@ -350,6 +350,14 @@ func (fc *FuncCtx) lookupLocal(fr *Frame, st *State, name string) (SVal, bool) {
 			return SVal{T: v.T, Typ: best.Type().Underlying().(*types.Pointer).Elem()}, true
 		}
 	}
+	// struct- or array-typed locals live on the heap: the name denotes the object (its address)
+	for v, val := range fr.regs {
+		if a, ok := v.(*ssa.Alloc); ok && a.Comment == name && a.Parent() == fr.fn && val.T != nil && val.LV == nil {
+			if !isCellType(a.Type().Underlying().(*types.Pointer).Elem()) {
+				return SVal{T: val.T, Typ: a.Type()}, true
+			}
+		}
+	}
 	for _, fv := range fr.fn.FreeVars {
 		if fv.Name() == name {
 			lv := fr.regs[fv]
@@ -542,6 +550,21 @@ func elabModLoc(p *Program, m string, env *Env) (locs []ModLoc, err error) {
 		}
 		d, vv, l := p.mapHeaps(mt)
 		return []ModLoc{{Heap: d, At: v.T}, {Heap: vv, At: v.T}, {Heap: l, At: v.T}}, nil
+	case strings.HasPrefix(m, "gfield(") && strings.HasSuffix(m, ")"):
+		body := m[7 : len(m)-1]
+		i := strings.LastIndex(body, ",")
+		if i < 0 {
+			h := "GH:" + strings.TrimSpace(body)
+			p.registerHeap(h, ArraySort(SInt, SInt))
+			return []ModLoc{{Heap: h}}, nil
+		}
+		oe, perr := ParseSpec(body[:i])
+		if perr != nil {
+			return nil, perr
+		}
+		h := "GH:" + strings.TrimSpace(body[i+1:])
+		p.registerHeap(h, ArraySort(SInt, SInt))
+		return []ModLoc{{Heap: h, At: env.elab(oe).T}}, nil
 	case strings.HasPrefix(m, "global(") && strings.HasSuffix(m, ")"):
 		name := m[7 : len(m)-1]
 		obj := env.pkg.Scope().Lookup(name)
@@ -936,9 +959,25 @@ func (fc *FuncCtx) contractModHeaps(f *ssa.Function, c *Contract) []string {
 	}
 	names := paramNames(f, c)
 	if f != nil {
-		for i, prm := range f.Params {
-			if s := sortOf(prm.Type()); s != nil && i < len(names) {
-				env.vars[names[i]] = SVal{T: Var("$m."+names[i], s), Typ: prm.Type()}
+		// parameter types from the signature (functions of dependencies have no SSA parameters)
+		var ptypes []types.Type
+		if f.Signature.Recv() != nil {
+			ptypes = append(ptypes, f.Signature.Recv().Type())
+		}
+		for i := 0; i < f.Signature.Params().Len(); i++ {
+			ptypes = append(ptypes, f.Signature.Params().At(i).Type())
+		}
+		if len(names) == 0 {
+			if f.Signature.Recv() != nil {
+				names = append(names, f.Signature.Recv().Name())
+			}
+			for i := 0; i < f.Signature.Params().Len(); i++ {
+				names = append(names, f.Signature.Params().At(i).Name())
+			}
+		}
+		for i, pt := range ptypes {
+			if s := sortOf(pt); s != nil && i < len(names) {
+				env.vars[names[i]] = SVal{T: Var("$m."+names[i], s), Typ: pt}
 			}
 		}
 	}
